@@ -12,6 +12,7 @@ import MstVerif.Model.Diff
 import MstVerif.Model.Sync
 import MstVerif.Model.DiffDepth
 import MstVerif.Model.Api
+import MstVerif.Model.Snapshot
 import MstVerif.Proofs.Defs
 import Std.Data.HashMap
 
@@ -334,7 +335,11 @@ def step (st : St) (line : String) : St × String :=
       match st.trees[t]? with
       | some (.tree tr _) =>
         match serOf tr with
-        | .ok (some l) => ({ st with lists := st.lists.insert id l }, "ok")
+        | .ok (some l) =>
+          -- `PageRangeSnapshot::from(ranges)`, later read back through `iter()` (Model/Snapshot.lean)
+          match (Snapshot.ofRanges l).iter with
+          | .ok l' => ({ st with lists := st.lists.insert id l' }, "ok")
+          | .error _ => (st, "panic")
         | .ok none => (st, "none")
         | .error _ => (st, "panic")
       | some .poisoned => (st, "poisoned")
